@@ -139,7 +139,8 @@ fn well_formed(apts: &[Apt]) -> Vec<WellFormed> {
                     v.push(WellFormed {
                         spec: format!("{scheme}{hp}{r}"),
                         expect: Address::Tcp(AddressPath::Short(hp.clone())),
-                        tables: vec![format!("tcp = \"{hp}\""), format!("tcp = {{ address = \"{h}\", port = {p} }}")],
+                        // (the optional jump host of the long form is how to get there, not where: same endpoint)
+                        tables: vec![format!("tcp = \"{hp}\""), format!("tcp = {{ address = \"{h}\", port = {p} }}"), format!("tcp = {{ address = \"{h}\", port = {p}, jump = \"gateway.example\" }}")],
                         reference: *pos,
                     });
                 }
@@ -152,7 +153,7 @@ fn well_formed(apts: &[Apt]) -> Vec<WellFormed> {
                     v.push(WellFormed {
                         spec: format!("{url}{r}"),
                         expect: Address::Websocket(WebsocketPath::Short(url.clone())),
-                        tables: vec![format!("websocket = \"{url}\""), format!("websocket = {{ url = \"{url}\" }}")],
+                        tables: vec![format!("websocket = \"{url}\""), format!("websocket = {{ url = \"{url}\" }}"), format!("websocket = {{ url = \"{url}\", jump = \"gateway.example\" }}")],
                         reference: *pos,
                     });
                 }
